@@ -113,8 +113,14 @@ impl Polytope {
         let pb = problem.solver;
         let vars = problem.vars;
 
-        match pb.solve() {
-            Ok(sol) => {
+        // minilp unwraps the result of its LU factorisation and panics when it meets a
+        // (numerically) singular basis matrix. That is a failure of the backend, not of the
+        // caller: report it as a solver error, which all callers treat as recoverable.
+        let solved = std::panic::catch_unwind(std::panic::AssertUnwindSafe(|| pb.solve()));
+
+        match solved {
+            Err(_) => PolytopeStatus::Error("LP backend panicked while solving".to_string()),
+            Ok(Ok(sol)) => {
                 let wit = Array1::from_iter(vars.iter().map(|var| sol[*var]));
                 if wit.iter().any(|x| x.is_infinite() || x.is_nan()) {
                     PolytopeStatus::Unbounded
@@ -122,8 +128,8 @@ impl Polytope {
                     PolytopeStatus::Optimal(wit)
                 }
             }
-            Err(minilp::Error::Infeasible) => PolytopeStatus::Infeasible,
-            Err(minilp::Error::Unbounded) => PolytopeStatus::Unbounded,
+            Ok(Err(minilp::Error::Infeasible)) => PolytopeStatus::Infeasible,
+            Ok(Err(minilp::Error::Unbounded)) => PolytopeStatus::Unbounded,
         }
     }
 
